@@ -268,6 +268,24 @@ void dealloc_cb(void* p) noexcept {
   }
 }
 
+// ------------------------------------------------------------------ free-running mode
+// Threads run freely on real cores; every hook is a perturbation point (thread-local PRNG,
+// no shared writes, hence no happens-before edges that would blind ThreadSanitizer).
+thread_local vh::rng tl_perturb{1};
+std::atomic<int> g_free_ready{0};
+int g_free_threads = 0;
+void free_hook(int, const void*) noexcept {
+  const auto x = tl_perturb.next() & 0x3FF;
+  if (x < 12) sched_yield();
+  else if (x < 24) { const auto n = 20 + (tl_perturb.next() & 0x7FF); for (u64 i = 0; i < n; ++i) asm volatile("pause"); }
+}
+
+#if defined(__SANITIZE_THREAD__)
+constexpr bool kTsan = true;
+#else
+constexpr bool kTsan = false;
+#endif
+
 // ------------------------------------------------------------------ thread body
 template <class Db>
 struct runner {
@@ -279,7 +297,7 @@ struct runner {
       if (h.n != 0 && std::memcmp(h.p, h.copy.data(), h.n) != 0)
         violate("C04", "view/changed-before-quiescent", "bytes behind a value view changed before the holder's next quiescent state", json::object().set("thread", t).set("key", vh::hex(h.key)));
     }
-    rep().count("held_views_reread", X->holds[static_cast<std::size_t>(t)].size());
+    if (!g_free_mode) rep().count("held_views_reread", X->holds[static_cast<std::size_t>(t)].size());
     X->holds[static_cast<std::size_t>(t)].clear();
   }
 
@@ -373,6 +391,11 @@ struct runner {
   void thread_main(int t, int sched_id) {
     tl_thread = t;
     if (!g_free_mode) vs::S().thread_start(sched_id);
+    else {
+      tl_perturb.reseed(vh::hash_combine(static_cast<u64>(sched_id), static_cast<u64>(t) + 99));
+      g_free_ready.fetch_add(1, std::memory_order_relaxed);
+      while (g_free_ready.load(std::memory_order_relaxed) < g_free_threads) asm volatile("pause");
+    }
     for (const auto& o : P->threads[static_cast<std::size_t>(t)]) {
       if (X->violated) break;
       run_op(t, o);
@@ -576,6 +599,7 @@ void post_checks(Db& db, const program& p, exec_state& x) {
     db.dump(os);
   }
   const auto reach = reachable_nodes(os.str());
+  if (kTsan) { rep().count("sweeps_completed"); return; }  // no allocation tracker under TSan (its lock would order library accesses)
   const auto live = vm::alloc_tracker::get().snapshot();
   for (const auto a : reach)
     if (live.count(reinterpret_cast<void*>(a)) == 0)
@@ -732,6 +756,74 @@ void crash_context(int sig) {
   raise(sig);
 }
 
+// One free-running round of program p: real parallel threads, atomic stamps, same oracles afterwards.
+template <class Db>
+bool execute_free(const program& p, u64 round_seed) {
+  using K = typename Db::key_type;
+  exec_state x;
+  x.recs.resize(p.threads.size());
+  x.holds.resize(p.threads.size());
+  X = &x;
+  P = &p;
+  tl_thread = -1;
+  g_free_clock.store(0);
+  g_free_ready.store(0);
+  g_free_threads = static_cast<int>(p.threads.size());
+  rep().progress_case(g_case, g_exec_desc.c_str());
+  {
+    g_phase = "setup";
+    Db db;
+    for (const auto& kv : p.initial) {
+      const bytes v = value_bytes(kv.second);
+      (void)db.insert(keyconv<K>::to(kv.first), unodb::value_view{reinterpret_cast<const std::byte*>(v.data()), v.size()});
+    }
+    runner<Db> rn{&db};
+    g_phase = "run";
+    g_track_frees.store(true);
+    unodb::this_thread().qsbr_pause();
+    {
+      std::vector<unodb::qsbr_thread> ths;
+      ths.reserve(p.threads.size());
+      for (std::size_t t = 0; t < p.threads.size(); ++t) ths.emplace_back([&rn, t, round_seed] { rn.thread_main(static_cast<int>(t), static_cast<int>(round_seed & 0xFFFF) + static_cast<int>(t)); });
+      for (auto& t : ths) t.join();
+    }
+    unodb::this_thread().qsbr_resume();
+    g_track_frees.store(false);
+    const u64 end_stamp = g_free_clock.load() + 10;
+    if (!x.violated) { g_phase = "judge"; judge(db, p, x, end_stamp); }
+    if (!x.violated) post_checks(db, p, x);
+    rep().evaluation();
+    rep().count("free_rounds");
+    if (x.overlap_on_key) rep().nontrivial(vh::hash_combine(vh::hash_combine(g_case, round_seed), x.scan_overlaps_write ? 3 : 5));
+    if (x.violated) {
+      x.vwitness.set("program", p.to_json()).set("execution", g_exec_desc).set("mode", "free-running");
+      rep().violation(x.vprop, "olc_conc/" + x.vkey, x.vwhat, std::move(x.vwitness));
+    }
+    g_phase = "teardown";
+  }
+  const bool bad = x.violated;
+  if (!kTsan && !bad && vm::alloc_tracker::get().bytes_live() != 0) {
+    rep().violation("C04", "olc_conc/conservation/leak-after-destruction", "bytes still held from the allocator after the index was destroyed", json::object().set("program", p.to_json()));
+    X = nullptr;
+    return false;
+  }
+  X = nullptr;
+  return !bad;
+}
+
+template <class Db>
+bool run_case_free(u64 c, vh::rng& r, const vh::args& a) {
+  program p = make_program(r, r.chance(0.3), a);
+  p.keykind = keyconv<typename Db::key_type>::name;
+  if (c < 2) rep().sample(json::object().set("program", p.to_json()).set("mode", "free-running"), 3);
+  const u64 rounds = a.num("rounds", 30);
+  for (u64 k = 0; k < rounds; ++k) {
+    g_exec_desc = "free round " + std::to_string(k);
+    if (!execute_free<Db>(p, vh::case_seed(rep().seed, c, 300 + k))) return false;
+  }
+  return true;
+}
+
 void fatal_handler(const std::string& kind, const std::string& what) {
   json wj = json::object().set("execution", g_exec_desc).set("phase", g_phase).set("scheduler", what);
   if (P != nullptr) wj.set("program", P->to_json());
@@ -825,9 +917,13 @@ int main(int argc, char** argv) {
   const vh::args a(argc, argv);
   rep().init(a, "olc_conc");
   g_prop = a.str("prop", "C03");
-  unodb::verif::on_alloc.store(alloc_cb);
-  unodb::verif::on_dealloc.store(dealloc_cb);
-  vs::install_hooks();
+  g_free_mode = a.str("mode", "sched") == "free";
+  if (!(g_free_mode && kTsan)) {
+    unodb::verif::on_alloc.store(alloc_cb);
+    unodb::verif::on_dealloc.store(dealloc_cb);
+  }
+  if (g_free_mode) unodb::verif::on_sched.store(&free_hook);
+  else vs::install_hooks();
   vs::S().on_fatal = fatal_handler;
   signal(SIGABRT, crash_context);
   signal(SIGSEGV, crash_context);
@@ -839,7 +935,9 @@ int main(int argc, char** argv) {
     vh::rng r(vh::case_seed(rep().seed, c, 0x01C));
     const bool small = a.has("small") ? a.num("small") != 0 : (c % 2 == 0);
     const bool kv = r.chance(0.4);
-    const bool ok = kv ? run_case_t<unodb::olc_db<unodb::key_view, V>>(c, r, a, small) : run_case_t<unodb::olc_db<std::uint64_t, V>>(c, r, a, small);
+    bool ok;
+    if (g_free_mode) ok = kv ? run_case_free<unodb::olc_db<unodb::key_view, V>>(c, r, a) : run_case_free<unodb::olc_db<std::uint64_t, V>>(c, r, a);
+    else ok = kv ? run_case_t<unodb::olc_db<unodb::key_view, V>>(c, r, a, small) : run_case_t<unodb::olc_db<std::uint64_t, V>>(c, r, a, small);
     rep().count(kv ? "programs.key_view" : "programs.u64");
     if (!ok) {
       // a violation may leave process-global QSBR state behind: continue in a fresh process
